@@ -2,7 +2,7 @@ SPECIFICATION Spec
 CONSTANTS
   Proc = {1, 2, 3}
   Str = {"a", "b"}
-  LockedS2S = FALSE
-  SplitPublish = FALSE
-INVARIANTS NoRace
+  LockedS2S = TRUE
+  SplitPublish = TRUE
+INVARIANTS ConsistentWhenFree
 CHECK_DEADLOCK FALSE
